@@ -17,6 +17,6 @@ CheckB(r) ==
        /\ Drift(r.d = Dec(r.lo, r.hi, r.p, r.c), "Dec")
   ELSE IF r.e = "WrapBounds" THEN Drift(r.initok = BoundsOK(r.lo, r.hi), "BoundsOK")
   ELSE TRUE
-Conforms == i <= N => (CheckA(Recs[i]) /\ CheckB(Recs[i]))
+Conforms == ti <= N => (CheckA(Recs[ti]) /\ CheckB(Recs[ti]))
 Spec == ShardInit /\ [][ShardNext]_tvars
 =============================================================================
